@@ -51,7 +51,7 @@ def job_ops(job, plan):
             ol = max(ol, est // 30 + 1)
         ops += ["setfn %d" % maxilen, "pulldrain %d %s" % (ol, " ".join(pat)), "pull %d" % ol, "hash"]
         return ops
-    ops.append("eoistyle %d" % rng.below(5))   # how end-of-input is said and how the drain calls look (harness/cr/trace.c after_end)
+    ops.append("eoistyle %d" % rng.below(6))   # how end-of-input is said and how the drain calls look (harness/cr/trace.c after_end)
     ops.append("nullout %d" % rng.below(2))    # a call that asks for 0 frames passes out == NULL (soxr.h allows it)
     blk = rng.choice([1, 100, 1000, 1000, 8192, 50000])
     blk = max(blk, N // 400 + 1)
@@ -76,18 +76,20 @@ def oracle(job, tr):
     maxbuf = 0
     starved = 0
     tiny = []
+    cur = None
     for l in tr.lines:
         if l.startswith("> cr.proc") or l.startswith("> cr.pull"):
             t = l.split()
             if t[1] == "cr.proc":
-                olen = int(t[6]); flushed = flushed or cr.signals_end(t)
+                olen = int(t[6]); flushed = flushed or cr.signals_end(t); cur = t
             else:
-                olen = int(t[2])
+                olen = int(t[2]); cur = None
         elif l.startswith("> cr.eoi"):
             olen = 0                      # the end-of-input call without buffers asks for nothing
         elif l.startswith("< R "):
             r = cr.parse_kv(l)
             od = int(r["od"]); out += od; fed += int(r["id"])
+            flushed = flushed or cr.marked_whole(cur, r)
             fl = r.get("fl") == "1"
             if "occ" in r and not fl and job.get("style") == "tinypull" and r.get("err") == "0":
                 # pull mode: the library asked for what it needed; nothing it holds may grow with the number of calls
